@@ -98,3 +98,71 @@ func run(p Plan) (vk.Outcome, error) {
 func TestPeriodicOrTriggerOldTimers(t *testing.T) {
 	vk.Run(t, suite, "pot-old-timers", 40, genPlan, run)
 }
+
+// ---------------------------------------------------------------- every trigger call is followed by a run (real clock)
+//
+// In a bubble a zero-delay timer only fires at quiescence, so an implementation that turns a trigger
+// into "make the timer fire now" can never be caught mid-run there. Here the interval is an hour (only
+// triggers cause runs), a run takes ~20 us, and the second trigger of every round is aimed at the end of
+// the run the first one started. A run has to begin after that call; 3 s is the (generous) limit.
+
+type TrigRealPlan struct {
+	Rounds int `json:"rounds"`
+	RunUs  int `json:"run_us"`
+}
+
+func genTrigReal(t *rapid.T) TrigRealPlan {
+	return TrigRealPlan{Rounds: rapid.IntRange(300, 1500).Draw(t, "rounds"), RunUs: rapid.SampledFrom([]int{5, 20, 50}).Draw(t, "run")}
+}
+
+func spinFor(d time.Duration) {
+	for start := time.Now(); time.Since(start) < d; {
+	}
+}
+
+func runTrigReal(p TrigRealPlan) (vk.Outcome, error) {
+	var out vk.Outcome
+	g := xsync.NewGroup(context.Background())
+	runLen := time.Duration(p.RunUs) * time.Microsecond
+	var begun atomic.Int64
+	trigger := g.PeriodicOrTrigger(time.Hour, 0, func(ctx context.Context) {
+		begun.Add(1)
+		spinFor(runLen)
+	})
+	waitAbove := func(n int64) bool {
+		deadline := time.Now().Add(3 * time.Second)
+		for i := 0; begun.Load() <= n; i++ {
+			if i > 2000 {
+				if time.Now().After(deadline) {
+					return false
+				}
+				time.Sleep(20 * time.Microsecond)
+			}
+		}
+		return true
+	}
+	var verr error
+	for round := 0; round < p.Rounds; round++ {
+		b0 := begun.Load()
+		trigger()
+		if !waitAbove(b0) {
+			verr = vk.Violf("trigger-lost", "round %d: a trigger call on an idle PeriodicOrTrigger worker was not followed by a run within 3 s", round)
+			break
+		}
+		spinFor(runLen * time.Duration(round%31) / 20) // 0 .. 1.5 run lengths: around the end of that run
+		b1 := begun.Load()
+		trigger()
+		if !waitAbove(b1) {
+			verr = vk.Violf("trigger-lost", "round %d: a trigger call made %v after a run had begun (a run takes %v) was not followed by a run that began after the call, within 3 s", round, runLen*time.Duration(round%31)/20, runLen)
+			break
+		}
+		time.Sleep(50 * time.Microsecond) // let the worker go idle again
+	}
+	g.StopAndWait()
+	out.NonTrivial, out.Execs = true, p.Rounds
+	return out, verr
+}
+
+func TestTriggerFollowedByRunRealClock(t *testing.T) {
+	vk.Run(t, suite, "pot-trigger-real", 12, genTrigReal, runTrigReal)
+}
